@@ -83,7 +83,14 @@ def helpers_env(b):
         yield st, interp.concat_strs(parts)
 
     b.bind('urlencode', Model('urlencode', urlencode))
-    b.bind('datetime', Obj('datetime', utcnow=Model('utcnow', lambda i, s, a, k: (s.emit('utcnow'), iter([(s, sym.fresh(NOW, 'now'))]))[1])))
+    # every reading of the clock is a NEW instant (two readings in one request may straddle a second, or midnight)
+    def _clock_fn(interp, st, args, kwargs):
+        r = sym.fresh(NOW, 'now')
+        st.emit('utcnow', value=r)
+        yield st, r
+
+    _clock = Model('clock', _clock_fn)
+    b.bind('datetime', Obj('datetime', utcnow=_clock, now=_clock))
 
 
 def self_obj(b):
@@ -182,7 +189,9 @@ def prepare_post(prop, shape):
             now_events = p.events('utcnow')
             # one clock reading feeds both the x-amz-date header and the credential scope
             res.oblige(p, f'{prop}.sig[{shape}].single_clock_reading', z3.BoolVal(len(now_events) == 1))
-            now = [v for v in [p.st.lookup('now')]][0].z
+            if not now_events:
+                continue
+            now = now_events[0].data['value'].z          # the instant of the (first) clock reading, not a variable name
             auth, amzdate = sigv4_spec(me, method, enc_path, cq, ph, now)
             # C16.sig.structure: the signature is computed over exactly what goes on the wire
             res.oblige(p, f'{prop}.sig[{shape}].wire_url_is_signed_path_and_query', url == wire)
@@ -384,6 +393,8 @@ def put_stream_post(prop):
                 res.oblige(p.pc_at(e), f'{prop}.s3.put_stream.body_is_the_stream_with_declared_length[{sig}]', z3.And(
                     sym.lift(e.data['method'], STR).z == S('PUT'), sym.lift(e.data['uri'], STR).z == obj_uri(b),
                     z3.BoolVal(len(ac) == 1 and ac[0].data['stream'] is b.st.lookup('stream')),
+                    # C20: read from the caller's stream in pieces of the chunk size the command chose
+                    (sym.lift(ac[0].data['chunk_size'], INT).z == b.st.lookup('chunk_size').z) if len(ac) == 1 and ac[0].data['chunk_size'] is not None else z3.BoolVal(False),
                     sym.lift(kw['payload_digest'], STR).z == b.st.lookup('payload_digest').z,
                     sym.lift(hd['content-length'], STR).z == UF('str_of_int', INT, STR)(b.st.lookup('length').z)))
             if p.kind == 'raise':
@@ -408,8 +419,7 @@ def download_stream_setup(b):
     HDRS.attrs = {'get': MethodModel('get', hget)}
 
     def aiter_bytes(interp, st, args, kwargs):
-        def on_next(interp_, s, k):
-            pass
+        st.emit('aiter_bytes', size=(args[1] if len(args) > 1 else kwargs.get('chunk_size')))
         it = IterSpec(n_chunks, lambda k: SV(BYTES, UF('body_chunk', INT, BYTES)(k)))
         yield st, it
 
@@ -428,7 +438,13 @@ def download_stream_setup(b):
 def download_stream_post(prop):
     def post(res):
         n_exc = 0
+        b = res.builder
         for p in res.all_paths():
+            for e in p.events('aiter_bytes'):
+                # C20: the body is written to the caller's stream in pieces of the chunk size the command chose
+                sz = e.data['size']
+                res.oblige(p.pc_at(e), f'{prop}.s3.download_stream.writes_in_pieces_of_chunk_size', z3.BoolVal(False) if sz is None else
+                           sym.lift(sz, INT).z == b.st.lookup('chunk_size').z)
             evs = p.st.events
             kinds = [e.kind for e in evs]
             sig = ','.join(k for k in kinds if not k.startswith('loop')) + '->' + p.kind
@@ -677,3 +693,80 @@ def list_units(prop):
         Unit(f'{prop}.s3.list_files', S3C_PY, 'S3Compatible.list_files', list_files_setup, list_files_post(prop),
              loops=list_files_loops(), local_types={'continuation_token': Opt(STR), 'is_truncated': BOOL}, prop=prop),
     ]
+
+
+# ------------------------------------------------------------------ constructors: what the signer later reads is what the caller gave
+def ctor_setup(b):
+    me = Obj('self')
+    me._settable = ('bucket_name', 'key_id', 'access_key', 'region', 'host', 'scheme', 'url', '_client')
+    b.bind('self', me)
+    for nm in ('connection_string', 'key_id', 'access_key', 'region', 'host', 'scheme'):
+        b.sym(nm, STR)
+
+    def client(interp, st, args, kwargs):
+        st.emit('AsyncClient', kwargs=dict(kwargs))
+        yield st, Obj('client')
+
+    b.bind('httpx', Obj('httpx', AsyncClient=Model('AsyncClient', client)))
+    b.bind('_raise_for_status_hook', Obj('_raise_for_status_hook'))
+
+    def super_(interp, st, args, kwargs):
+        def init(i2, s2, a2, k2):
+            s2.emit('super_init', args=list(a2), kwargs=dict(k2))
+            yield s2, None
+        yield st, Obj('super', __init__=Model('__init__', init))
+
+    b.bind('super', Model('super', super_))
+
+
+def s3c_ctor_post(prop):
+    def post(res):
+        b = res.builder
+        g = lambda n: b.st.lookup(n).z
+        for p in res.paths:
+            if p.kind not in ('normal', 'return'):
+                res.oblige(p, f'{prop}.s3c.ctor.total', z3.BoolVal(False))
+                continue
+            last = {}
+            for e in p.events('setattr'):
+                last[e.data['name']] = e.data['value']
+            want = {'bucket_name': g('connection_string'), 'key_id': g('key_id'), 'access_key': g('access_key'), 'region': g('region'),
+                    'host': g('host'), 'scheme': g('scheme'), 'url': z3.Concat(g('scheme'), S('://'), g('host'))}
+            ok = all(k in last and isinstance(last[k], (SV, str)) for k in want)
+            # credentials, region, host and scheme are stored as given; the request URL base is scheme://host (the signed host)
+            res.oblige(p, f'{prop}.s3c.ctor.fields_are_the_arguments', z3.BoolVal(ok) if not ok else z3.And(
+                *[sym.lift(last[k], STR).z == w for k, w in want.items()]))
+            cl = p.events('AsyncClient')
+            hooks = cl[0].data['kwargs'].get('event_hooks') if len(cl) == 1 else None
+            hooks = res.interp.deref(p.st, ops.resolve(p.st, hooks)) if hooks is not None else None
+            ok2 = isinstance(hooks, dict) and 'response' in hooks
+            if ok2:
+                lst = res.interp.deref(p.st, ops.resolve(p.st, hooks['response']))
+                ok2 = isinstance(lst, list) and any(x is b.st.lookup('_raise_for_status_hook') for x in lst)
+            # error statuses become exceptions (the retry / propagation contracts of C12 rest on it)
+            res.oblige(p, f'{prop}.s3c.ctor.error_statuses_raise', z3.BoolVal(bool(ok2)))
+    return post
+
+
+def s3_ctor_post(prop):
+    def post(res):
+        b = res.builder
+        g = lambda n: b.st.lookup(n).z
+        for p in res.paths:
+            si = p.events('super_init')
+            ok = p.kind in ('normal', 'return') and len(si) == 1 and len(si[0].data['args']) == 1 and set(si[0].data['kwargs']) == {'key_id', 'access_key', 'region', 'host'}
+            res.oblige(p, f'{prop}.s3.ctor.delegates_once', z3.BoolVal(ok))
+            if ok:
+                kw = si[0].data['kwargs']
+                # AWS: the regional endpoint s3.<region>.amazonaws.com, everything else passed through
+                res.oblige(p, f'{prop}.s3.ctor.regional_endpoint_and_pass_through', z3.And(
+                    sym.lift(si[0].data['args'][0], STR).z == g('connection_string'),
+                    sym.lift(kw['key_id'], STR).z == g('key_id'), sym.lift(kw['access_key'], STR).z == g('access_key'),
+                    sym.lift(kw['region'], STR).z == g('region'),
+                    sym.lift(kw['host'], STR).z == z3.Concat(S('s3.'), g('region'), S('.amazonaws.com'))))
+    return post
+
+
+def ctor_units(prop):
+    return [Unit(f'{prop}.s3c.ctor', S3C_PY, 'S3Compatible.__init__', ctor_setup, s3c_ctor_post(prop), prop=prop),
+            Unit(f'{prop}.s3.ctor', 'replicat/backends/s3.py', 'S3.__init__', ctor_setup, s3_ctor_post(prop), prop=prop)]
